@@ -56,7 +56,7 @@ class Unit:
 _PENDING = []     # (unit, equation) pairs collected by the units; checked by one coqc run at the end
 
 ALL_IMPORTS = ("From SV Require Import Model.PeakHelpers Model.Peaks Model.Merging Model.PeakProps "
-               "Model.Splitting Model.SumWaveform.")
+               "Model.Splitting Model.SumWaveform Model.HDR Model.Widths.")
 
 
 def crosscheck(ctx, unit, eqs, imports=None):
